@@ -230,7 +230,7 @@ def c13_alphabet(alpha):
 
 
 ALPHABETS = {"full": lambda: c13_alphabet(ic.full_alphabet()), "core": ic.core_alphabet, "micro": ic.micro_alphabet,
-             "intlike": ic.intlike_alphabet}
+             "intlike": ic.intlike_alphabet, "gap": ic.gap_alphabet}
 
 
 def families(ctx):
@@ -238,7 +238,7 @@ def families(ctx):
     fams = []
     for tr in (False, True):
         fams += [("full=2", "full", 2, tr, False), ("core=4", "core", 4, tr, False), ("core=2(curves)", "core", 2, tr, True),
-                 ("intlike=3", "intlike", 3, tr, False)]
+                 ("intlike=3", "intlike", 3, tr, False), ("gap=5", "gap", 5, tr, False)]
     if ctx.thorough:
         fams += [("core=5", "core", 5, None, False), ("micro=6", "micro", 6, None, False)]   # tr alternates
     return fams
